@@ -13,6 +13,7 @@ import sys
 from typing import Any, Dict, List
 
 from vf.core import Ob, scenario, simple_ob
+from vf import instrument
 from vf.instrument import repo_root
 
 ROOT = os.path.dirname(os.path.dirname(os.path.abspath(__file__)))
@@ -50,7 +51,7 @@ def handlers():
     root = os.path.join(repo_root(), "src", "jasm")
     n = 0
     for f in sorted(glob.glob(os.path.join(root, "**", "*.py"), recursive=True)):
-        tree = ast.parse(open(f).read(), f)
+        tree = instrument.parse_file(f)
         for fn in ast.walk(tree):
             if not isinstance(fn, (ast.FunctionDef, ast.AsyncFunctionDef)):
                 continue
